@@ -35,6 +35,8 @@ MUTANTS = {
     "M9-": ["C15"],
     "M10-": ["C15"],
     "M11-": ["C15"],
+    "M12-": ["C19"],
+    "M13-": ["C19"],
 }
 
 
